@@ -66,6 +66,13 @@ func roundTrip(t fataler, src string, o js.Options, ast *js.AST) string {
 		}
 	}
 	out := ast.JSString()
+	// the other ways of looking at the tree (String, Walk, the conversion to JSON) do not change it: it prints the same text
+	_ = ast.String()
+	js.Walk(nopVisitor{}, ast)
+	_, _ = ast.JSONString()
+	if again := ast.JSString(); again != out {
+		t.Fatalf("the tree prints another text once String(), Walk and JSONString() have been called on it (%+v)\nsource:\n%s\nprinted first:\n%s\nprinted then:\n%s", o, src, out, again)
+	}
 	defer func() {
 		// (after the comparison below has removed the parenthesis nodes from the tree)
 		heldTree, heldText, heldSrc = ast, ast.JSString(), src
@@ -85,6 +92,11 @@ func roundTrip(t fataler, src string, o js.Options, ast *js.AST) string {
 	}
 	return out
 }
+
+type nopVisitor struct{}
+
+func (v nopVisitor) Enter(n js.INode) js.IVisitor { return v }
+func (v nopVisitor) Exit(n js.INode)              {}
 
 // printer decisions that make a case interesting
 func decisions(out string) []string {
@@ -165,7 +177,8 @@ var oddities = []string{
 	"for((let) in a);", "for((let).x of y);", "for(let\nin a);", "for((let)[0];;);", "(let)[0]", "let\nlet", "if(a)\nlet\nx", "(let)\n[a]=1", "let\nyield", "(let[0])", "x = let", "let in x", "for(let of;;);",
 	"yield\n*2", "return_\nx", "a\n++b", "x\n/re/g", "a = b\n/c/d", "a\n(b)", "a\n[b]", "a++\n(b)", "x = y => {}\n(z)", "x = async y => {}\n[z]", "++a ** 2", "(-a) ** 2", "(a, b) => ({}).x", "(a) => ({})",
 	"of = of\nof", "for(of of of);", "for(var of of of);", "get\nset", "x = {get\n[a](){}}", "static\nx", "class A{static\nstatic(){}}", "class A{'constructor'(){}}", "await\nx", "(await)", "yield\n", "x = {await, yield, async, let, of}",
-	"`${a++\n`b`", "`${a=>{}\n`b`}`", "x = `${a}\n`b``", "a\n`b`", "a++\n`b${c}d`", "a++\n`b${a++\n`b${c}d`", "`b${a++\n`b${c}d`}e`", "`a${b\n`c${d}e`}f`", "x = () => {}\n+c", "function*f(){yield\n-1}", "a = () => {}\n/re/.test(x)", "a+b\n/=re/g", "class A { get\n *a(){} }", "class A { static async\n *a(){} set\n*b(){} }", "if (a) if (b) c;\nelse d", "if (a) { if (b) c; } else d", "if (a) if (b) c; else d; else e",
+	"`${a++\n`b`", "`${a=>{}\n`b`}`", "x = `${a}\n`b``", "a\n`b`", "a++\n`b${c}d`", "a++\n`b${a++\n`b${c}d`", "`b${a++\n`b${c}d`}e`", "`a${b\n`c${d}e`}f`", "x = () => {}\n+c", "import {a as a} from 'm'", "import {a as b, c as c} from 'm'", "export {a as a}", "export {a as a, b} from 'm'", "export {default as default} from 'm'", "import {'s t' as x} from 'm'", "export {x as 's t'}", "x = ['single', \"double\", 'two words', 'it\\'s', '\"q\"']",
+	"x = (a, {a: a})", "({a: a, a: a})", "y = ([a, {a: a}])", "async(a, {a: a})", "(a, [a], {a})", "(a = 1, {a})", "(a, {a: a}) => a", "x = (a, {b: a, a: b, c: c})", "f((a, {a: a}))", "function*f(){yield\n-1}", "a = () => {}\n/re/.test(x)", "a+b\n/=re/g", "class A { get\n *a(){} }", "class A { static async\n *a(){} set\n*b(){} }", "if (a) if (b) c;\nelse d", "if (a) { if (b) c; } else d", "if (a) if (b) c; else d; else e",
 	"x = {'01': 1}", "x = {\"0123\": 1, '09': 2}", "x = {'1e3': 1, '0x10': 2, '1_0': 3, '.5': 4, '5.': 5, '-1': 6, '0': 7, '00': 8, '1n': 9, '0b1': 10, '1.0': 11, '9007199254740993': 12, '1e21': 13}",
 	"class A{'01'(){} static '02' = 1; get '03'(){} }", "var {'01': a, '1.50': b} = x", "({'01': a}) => a", "x = {01: 1}", "x = {1: 1, 1.5: 2, 0x10: 3, 1e3: 4, .5: 5, 1n: 6}", "x = {'a-b': 1, 'a b': 2, '': 3, 'é': 4, 'if': 5, 'let': 6, '__proto__': 7, '#a': 8}",
 	"/*! a */\n/*! b */ x; /*! c */ y", "/*! only */", "/*! 1 */ a; /*! 2 */ b; /*! 3 */ c; /*! 4 */ d; /*! 5 */ e; /*! 6 */ f; /*! 7 */ g; /*! 8 */ h; /*! 9 */ i",
